@@ -4,7 +4,7 @@
 From Coq Require Import ZArith List Bool Lia ZifyBool.
 From Emmet Require Import lib.Base model.MarkupTokenizer model.MarkupParser model.MarkupConvert
      model.OutStream model.FormatHtml model.FormatIndent proofs.OutStreamProofs proofs.FormatSteps
-     proofs.FormatReach proofs.FormatProofs proofs.FormatChunks.
+     proofs.FormatReach proofs.FormatProofs proofs.FormatChunks proofs.FormatTabstops.
 
 (* ---------------------------------------------------------------- SPEC: content of a chunk list *)
 Definition ws (s : str) : bool := forallb is_py_space s.
@@ -166,32 +166,45 @@ Qed.
 End Run.
 
 (* ---------------------------------------------------------------- two runs *)
-Definition Sim (a b : fstate) : Prop := content a = content b /\ fs_field a = fs_field b.
-
+(* Two runs of the formatter on the same tree under option records c1, c2.  The runs may break
+   lines and indent differently (every such step appends blanks only).  What the two records
+   must agree on is stated as hypotheses; [Rel] relates the contents of the two streams and is
+   kept by appending the same items to both. *)
 Section Two.
-Variables (c : oconfig) (k1 k2 : cosmetic).
-Hypothesis H1 : ws_fmt (k_fmt k1).
-Hypothesis H2 : ws_fmt (k_fmt k2).
-Let c1 := with_cos k1 c.
-Let c2 := with_cos k2 c.
+Variables c1 c2 : oconfig.
+Hypothesis H1 : ws_fmt (oc_fmt c1).
+Hypothesis H2 : ws_fmt (oc_fmt c2).
+Variable Rel : list citem -> list citem -> Prop.
+Hypothesis Rel_app : forall x y z, Rel x y -> Rel (x ++ z) (y ++ z).
+Variable Pn : anode -> Prop.
+
+Definition Sim (a b : fstate) : Prop := Rel (content a) (content b) /\ fs_field a = fs_field b.
+
+Hypothesis A_tag : forall n, tag_name c2 n = tag_name c1 n.
+Hypothesis A_cb : oc_comment_before c2 = oc_comment_before c1.
+Hypothesis A_ca : oc_comment_after c2 = oc_comment_after c1.
+Hypothesis S_comment : forall text n a b, Pn n -> Sim a b -> Sim (comment_node c1 text n a) (comment_node c2 text n b).
+Hypothesis S_attribute : forall x a b, Sim a b -> Sim (push_attribute c1 x a) (push_attribute c2 x b).
+Hypothesis S_selfclose : forall a b, Sim a b ->
+  Sim (push_str c1 (self_close c1 ++ [c_gt]) a) (push_str c2 (self_close c2 ++ [c_gt]) b).
 
 Lemma Sim_push_str s a b : Sim a b -> Sim (push_str c1 s a) (push_str c2 s b).
 Proof.
   intros [Hc Hfld]. split; [|exact Hfld].
-  rewrite (ct_push_str c1 H1), (ct_push_str c2 H2), Hc. reflexivity.
+  rewrite (ct_push_str c1 H1), (ct_push_str c2 H2). apply Rel_app, Hc.
 Qed.
 
 Lemma Sim_push_tokens v a b : Sim a b -> Sim (push_tokens c1 v a) (push_tokens c2 v b).
 Proof.
   intros [Hc Hfld]. split.
-  - rewrite (ct_push_tokens c1 H1), (ct_push_tokens c2 H2), Hc, Hfld. reflexivity.
+  - rewrite (ct_push_tokens c1 H1), (ct_push_tokens c2 H2), Hfld. apply Rel_app, Hc.
   - rewrite !fld_push_tokens, Hfld. reflexivity.
 Qed.
 
 Lemma Sim_left a a' b : content a' = content a -> fs_field a' = fs_field a -> Sim a b -> Sim a' b.
-Proof. intros E1 E2 [Hc Hfld]. split; congruence. Qed.
+Proof. intros E1 E2 [Hc Hfld]. split; [rewrite E1; exact Hc|congruence]. Qed.
 Lemma Sim_right a b b' : content b' = content b -> fs_field b' = fs_field b -> Sim a b -> Sim a b'.
-Proof. intros E1 E2 [Hc Hfld]. split; congruence. Qed.
+Proof. intros E1 E2 [Hc Hfld]. split; [rewrite E1; exact Hc|congruence]. Qed.
 
 Lemma Sim_level d1 d2 a b :
   Sim a b -> Sim (map_out (fun o => os_add_level o d1) a) (map_out (fun o => os_add_level o d2) b).
@@ -222,65 +235,70 @@ Lemma Sim_fold {A} (f1 f2 : fstate -> A -> fstate) (l : list A) :
   (forall a b x, Sim a b -> Sim (f1 a x) (f2 b x)) -> forall a b, Sim a b -> Sim (fold_left f1 l a) (fold_left f2 l b).
 Proof. intros Hs. induction l as [|x l IH]; intros a b H; cbn [fold_left]; [exact H|]. apply IH, Hs, H. Qed.
 
-(* attributes: name, value and quotes are computed from non-cosmetic options only *)
-Lemma Sim_attr_write name v lq rq a b : Sim a b -> Sim (attr_write c1 name v lq rq a) (attr_write c2 name v lq rq b).
+(* pieces that write the same strings and tokens in both runs *)
+Lemma Sim_comment_same text n a b :
+  should_comment c2 n = should_comment c1 n -> Sim a b -> Sim (comment_node c1 text n a) (comment_node c2 text n b).
 Proof.
-  intros H. unfold attr_write. change (oc_self_closing_style c1) with (oc_self_closing_style c).
-  change (oc_self_closing_style c2) with (oc_self_closing_style c).
-  destruct v as [[|v0 vr]|].
-  - destruct (negb (str_eqb (oc_self_closing_style c) s_html)); repeat apply Sim_push_str; exact H.
-  - apply Sim_push_str, Sim_push_tokens, Sim_push_str, Sim_push_str, H.
-  - destruct (negb (str_eqb (oc_self_closing_style c) s_html)); repeat apply Sim_push_str; exact H.
-Qed.
-
-Lemma Sim_push_attribute x a b : Sim a b -> Sim (push_attribute c1 x a) (push_attribute c2 x b).
-Proof.
-  intros H. rewrite !push_attribute_unfold. destruct (aa_name x) as [[|y nm]|]; try exact H.
-  change (attr_out_name c2 x (y :: nm)) with (attr_out_name c1 x (y :: nm)).
-  change (attr_v1 c2 x (y :: nm)) with (attr_v1 c1 x (y :: nm)).
-  cbv zeta. destruct (attr_v1 c1 x (y :: nm)) as [[value1 lq] rq].
-  change (attr_value2 c2 x (attr_out_name c1 x (y :: nm)) value1) with (attr_value2 c1 x (attr_out_name c1 x (y :: nm)) value1).
-  apply Sim_attr_write, H.
-Qed.
-
-Lemma Sim_comment_node text n a b : Sim a b -> Sim (comment_node c1 text n a) (comment_node c2 text n b).
-Proof.
-  intros H. unfold comment_node. destruct text; [exact H|].
-  change (should_comment c2 n) with (should_comment c1 n). destruct (should_comment c1 n); [|exact H].
+  intros E H. unfold comment_node. destruct text; [exact H|]. rewrite E. destruct (should_comment c1 n); [|exact H].
   unfold comment_output. apply Sim_fold; [|exact H].
   intros a' b' t H'. destruct t as [s|bf af nm]; [apply Sim_push_str, H'|].
   destruct (assoc_str nm _); [|exact H']. apply Sim_push_str, Sim_push_tokens, Sim_push_str, H'.
 Qed.
 
-Lemma Sim_el_open nm node a b : Sim a b -> Sim (el_open c1 nm node a) (el_open c2 nm node b).
+Lemma Sim_attr_write_same name v lq rq a b :
+  truthy_l v = true \/ oc_self_closing_style c2 = oc_self_closing_style c1 ->
+  Sim a b -> Sim (attr_write c1 name v lq rq a) (attr_write c2 name v lq rq b).
 Proof.
-  intros H. unfold el_open, el_attrs. change (tag_name c2 nm) with (tag_name c1 nm).
-  change (oc_comment_before c2) with (oc_comment_before c1).
-  assert (H' : Sim (push_str c1 (c_lt :: tag_name c1 nm) (comment_node c1 (oc_comment_before c1) node a))
-                   (push_str c2 (c_lt :: tag_name c1 nm) (comment_node c2 (oc_comment_before c1) node b))).
-  { apply Sim_push_str, Sim_comment_node, H. }
-  destruct (an_attrs node) as [[|x l]|]; try exact H'.
-  apply Sim_fold; [|exact H']. intros a' b' y Hy. destruct (should_output_attribute y); [apply Sim_push_attribute|]; exact Hy.
+  intros E H. unfold attr_write. destruct v as [[|v0 vr]|].
+  - destruct E as [E|E]; [discriminate|]. rewrite E.
+    destruct (negb (str_eqb (oc_self_closing_style c1) s_html)); repeat apply Sim_push_str; exact H.
+  - apply Sim_push_str, Sim_push_tokens, Sim_push_str, Sim_push_str, H.
+  - destruct E as [E|E]; [discriminate|]. rewrite E.
+    destruct (negb (str_eqb (oc_self_closing_style c1) s_html)); repeat apply Sim_push_str; exact H.
 Qed.
 
-Lemma Sim_el_close nm node a b : Sim a b -> Sim (el_close c1 nm node a) (el_close c2 nm node b).
+Lemma Sim_push_attribute_same x a b :
+  (forall nm, attr_out_name c2 x nm = attr_out_name c1 x nm) ->
+  (forall nm, attr_v1 c2 x nm = attr_v1 c1 x nm) ->
+  (forall name v, attr_value2 c2 x name v = attr_value2 c1 x name v) ->
+  (forall name v, truthy_l (attr_value2 c1 x name v) = true) \/ oc_self_closing_style c2 = oc_self_closing_style c1 ->
+  Sim a b -> Sim (push_attribute c1 x a) (push_attribute c2 x b).
 Proof.
-  intros H. unfold el_close. change (tag_name c2 nm) with (tag_name c1 nm).
-  change (oc_comment_after c2) with (oc_comment_after c1). apply Sim_comment_node, Sim_push_str, H.
+  intros E1 E2 E3 E4 H. rewrite !push_attribute_unfold. destruct (aa_name x) as [[|y nm]|]; try exact H.
+  rewrite E1, E2. cbv zeta. destruct (attr_v1 c1 x (y :: nm)) as [[value1 lq] rq]. rewrite E3.
+  apply Sim_attr_write_same; [|exact H]. destruct E4 as [E4|E4]; [left; apply E4|right; exact E4].
 Qed.
+
+Lemma Sim_el_open nm node a b : Pn node -> Sim a b -> Sim (el_open c1 nm node a) (el_open c2 nm node b).
+Proof.
+  intros HP H. unfold el_open, el_attrs. rewrite A_tag, A_cb.
+  assert (H' : Sim (push_str c1 (c_lt :: tag_name c1 nm) (comment_node c1 (oc_comment_before c1) node a))
+                   (push_str c2 (c_lt :: tag_name c1 nm) (comment_node c2 (oc_comment_before c1) node b))).
+  { apply Sim_push_str, S_comment; assumption. }
+  destruct (an_attrs node) as [[|x l]|]; try exact H'.
+  apply Sim_fold; [|exact H']. intros a' b' y Hy. destruct (should_output_attribute y); [apply S_attribute|]; exact Hy.
+Qed.
+
+Lemma Sim_el_close nm node a b : Pn node -> Sim a b -> Sim (el_close c1 nm node a) (el_close c2 nm node b).
+Proof. intros HP H. unfold el_close. rewrite A_tag, A_ca. apply S_comment; [exact HP|]. apply Sim_push_str, H. Qed.
 
 Lemma Sim_el_value node a b : Sim a b -> Sim (el_value c1 node a) (el_value c2 node b).
 Proof.
   intros H. unfold el_value. destruct (an_value node) as [[|v0 v]|]; try exact H.
-  change (starts_with_block_tag c2 (v0 :: v)) with (starts_with_block_tag c1 (v0 :: v)).
-  set (inner := existsb has_newline (v0 :: v) || starts_with_block_tag c1 (v0 :: v)).
-  assert (Hm : Sim (push_tokens c1 (v0 :: v) (if inner then level_newline c1 1 a else a))
-                   (push_tokens c2 (v0 :: v) (if inner then level_newline c2 1 b else b))).
+  set (i1 := existsb has_newline (v0 :: v) || starts_with_block_tag c1 (v0 :: v)).
+  set (i2 := existsb has_newline (v0 :: v) || starts_with_block_tag c2 (v0 :: v)).
+  assert (Hm : Sim (push_tokens c1 (v0 :: v) (if i1 then level_newline c1 1 a else a))
+                   (push_tokens c2 (v0 :: v) (if i2 then level_newline c2 1 b else b))).
   { apply Sim_push_tokens, Sim_opt_level_newline, H. }
-  destruct inner; [|exact Hm].
   destruct (an_children node).
-  - apply (Sim_opt_level_newline true true), Hm.
-  - apply Sim_level, Hm.
+  - replace (if i1 then level_newline c1 (-1) _ else _) with
+      (if i1 then level_newline c1 (-1) (push_tokens c1 (v0 :: v) (if i1 then level_newline c1 1 a else a))
+       else push_tokens c1 (v0 :: v) (if i1 then level_newline c1 1 a else a)) by (destruct i1; reflexivity).
+    replace (if i2 then level_newline c2 (-1) _ else _) with
+      (if i2 then level_newline c2 (-1) (push_tokens c2 (v0 :: v) (if i2 then level_newline c2 1 b else b))
+       else push_tokens c2 (v0 :: v) (if i2 then level_newline c2 1 b else b)) by (destruct i2; reflexivity).
+    apply Sim_opt_level_newline, Hm.
+  - destruct i1, i2; exact Hm.
 Qed.
 
 Lemma Sim_el_leaf nm node a b : Sim a b -> Sim (el_leaf c1 nm node a) (el_leaf c2 nm node b).
@@ -310,16 +328,16 @@ Lemma Sim_strip_l s rest a b :
   Sim a b -> Sim (push_tokens c1 rest (push_str c1 (lstrip s) a)) (push_tokens c2 (VStr s :: rest) b).
 Proof.
   intros [Hc Hfld]. split.
-  - rewrite (ct_push_tokens c1 H1), (ct_push_str c1 H1), (ct_push_tokens c2 H2), fld_push_str, Hc, Hfld.
-    cbn [canon_tokens flat_map]. rewrite canon_str_lstrip, <- app_assoc. reflexivity.
+  - rewrite (ct_push_tokens c1 H1), (ct_push_str c1 H1), (ct_push_tokens c2 H2), fld_push_str, Hfld.
+    cbn [canon_tokens flat_map]. rewrite canon_str_lstrip, app_assoc. apply Rel_app, Rel_app, Hc.
   - rewrite !fld_push_tokens, fld_push_str, Hfld. reflexivity.
 Qed.
 Lemma Sim_strip_r s rest a b :
   Sim a b -> Sim (push_tokens c1 (VStr s :: rest) a) (push_tokens c2 rest (push_str c2 (lstrip s) b)).
 Proof.
   intros [Hc Hfld]. split.
-  - rewrite (ct_push_tokens c1 H1), (ct_push_tokens c2 H2), (ct_push_str c2 H2), fld_push_str, Hc, Hfld.
-    cbn [canon_tokens flat_map]. rewrite canon_str_lstrip, <- app_assoc. reflexivity.
+  - rewrite (ct_push_tokens c1 H1), (ct_push_tokens c2 H2), (ct_push_str c2 H2), fld_push_str, Hfld.
+    cbn [canon_tokens flat_map]. rewrite canon_str_lstrip, app_assoc. apply Rel_app, Rel_app, Hc.
   - rewrite !fld_push_tokens, fld_push_str, Hfld. reflexivity.
 Qed.
 
@@ -354,18 +372,18 @@ Proof.
 Qed.
 
 Lemma Sim_el_body node n1 n2 a b :
-  next_sim n1 n2 -> Sim a b -> Sim (el_body c1 node n1 a) (el_body c2 node n2 b).
+  Pn node -> next_sim n1 n2 -> Sim a b -> Sim (el_body c1 node n1 a) (el_body c2 node n2 b).
 Proof.
-  intros Hn H. unfold el_body.
+  intros HP Hn H. unfold el_body.
   assert (Hun : Sim (el_unnamed c1 node n1 a) (el_unnamed c2 node n2 b)).
   { unfold el_unnamed. pose proof (Sim_el_snippet node n1 n2 a b Hn H) as Hs.
     destruct (el_snippet c1 node n1 a); destruct (el_snippet c2 node n2 b); cbn [SimO] in Hs; try contradiction; [exact Hs|].
     destruct (an_value node) as [[|v0 v]|]; try exact H. apply Hn, Sim_push_tokens, H. }
   destruct (an_name node) as [[|x nm]|]; try exact Hun.
-  unfold el_named. change (self_close c2) with (self_close c1).
+  unfold el_named.
   destruct (an_self node && match an_children node with [] => true | _ => false end && negb (truthy_l (an_value node))).
-  - apply Sim_push_str, Sim_el_open, H.
-  - apply Sim_el_close, Sim_el_content; [exact Hn|]. apply Sim_push_str, Sim_el_open, H.
+  - apply S_selfclose, Sim_el_open; assumption.
+  - apply Sim_el_close; [exact HP|]. apply Sim_el_content; [exact Hn|]. apply Sim_push_str, Sim_el_open; assumption.
 Qed.
 
 Lemma Sim_el_tail f1 f2 p1 p2 i1 i2 it1 it2 a b :
@@ -380,11 +398,11 @@ Proof.
 Qed.
 
 Lemma Sim_html_step p1 p2 node i1 i2 it1 it2 n1 n2 a b :
-  next_sim n1 n2 -> Sim a b ->
+  Pn node -> next_sim n1 n2 -> Sim a b ->
   Sim (html_element_step c1 p1 node i1 it1 n1 a) (html_element_step c2 p2 node i2 it2 n2 b).
 Proof.
-  intros Hn H. unfold html_element_step.
-  apply Sim_level, Sim_el_tail, Sim_el_body; [exact Hn|]. apply Sim_opt_newline, Sim_level, H.
+  intros HP Hn H. unfold html_element_step.
+  apply Sim_level, Sim_el_tail, Sim_el_body; [exact HP|exact Hn|]. apply Sim_opt_newline, Sim_level, H.
 Qed.
 
 (* the two walks may carry different parent / sibling information (it only decides blanks) *)
@@ -397,24 +415,96 @@ Proof.
   inversion HF as [|y z Hx HF']; subst. apply IH; [exact HF'|]. apply Hx, H.
 Qed.
 
-Theorem Sim_html_element : forall node p1 p2 i1 i2 it1 it2 a b,
+(* [Pn] holds at every node of the tree *)
+Fixpoint all_nodes (n : anode) : Prop :=
+  match n with
+  | ANode nm v rp at_ ch sc =>
+      Pn (ANode nm v rp at_ ch sc) /\
+      (fix go (l : list anode) : Prop := match l with [] => True | x :: r => all_nodes x /\ go r end) ch
+  end.
+
+Theorem Sim_html_element : forall node, all_nodes node -> forall p1 p2 i1 i2 it1 it2 a b,
   Sim a b -> Sim (html_element c1 p1 node i1 it1 a) (html_element c2 p2 node i2 it2 b).
 Proof.
-  induction node as [nm v rp at_ ch sc IHch] using anode_ind'. intros p1 p2 i1 i2 it1 it2 a b H.
-  rewrite !html_element_unfold. apply Sim_html_step; [|exact H].
-  intros a' b' H'. rewrite !html_children_walk. apply Sim_html_walk; [exact IHch|exact H'].
+  induction node as [nm v rp at_ ch sc IHch] using anode_ind'. intros [HP Hall] p1 p2 i1 i2 it1 it2 a b H.
+  rewrite !html_element_unfold. apply Sim_html_step; [exact HP| |exact H].
+  intros a' b' H'. rewrite !html_children_walk. cbn [an_children]. apply Sim_html_walk; [|exact H'].
+  clear -IHch Hall. induction ch as [|x r IH]; constructor.
+  - inversion IHch; subst. destruct Hall as [Hx _]. auto.
+  - inversion IHch; subst. destruct Hall as [_ Hr]. apply IH; assumption.
+Qed.
+
+Theorem Sim_html_format children :
+  Rel [] [] -> Forall all_nodes children ->
+  Rel (content (html_format c1 children)) (content (html_format c2 children)).
+Proof.
+  intros Hnil Hall. rewrite !html_format_walk.
+  destruct (Sim_html_walk None None children children children 0 0 (mkFs os_empty 1) (mkFs os_empty 1)) as [H _].
+  - rewrite Forall_forall in *. intros n Hin. apply Sim_html_element, Hall, Hin.
+  - split; [exact Hnil|reflexivity].
+  - exact H.
+Qed.
+End Two.
+
+(* ================================================================ instance 1: cosmetic options *)
+Lemma all_nodes_true : forall n, all_nodes (fun _ => True) n.
+Proof.
+  induction n as [nm v rp at_ ch sc IHch] using anode_ind'. split; [exact I|].
+  induction ch as [|x r IH]; [exact I|]. inversion IHch; subst. split; [assumption|apply IH; assumption].
+Qed.
+
+Section Cosmetic.
+Variables (c : oconfig) (k1 k2 : cosmetic).
+Hypothesis H1 : ws_fmt (k_fmt k1).
+Hypothesis H2 : ws_fmt (k_fmt k2).
+Let c1 := with_cos k1 c.
+Let c2 := with_cos k2 c.
+Let SimE := Sim eq.
+
+Lemma eq_app : forall x y z : list citem, x = y -> x ++ z = y ++ z.
+Proof. intros x y z ->. reflexivity. Qed.
+
+Lemma cos_attr_write name v lq rq a b : SimE a b -> SimE (attr_write c1 name v lq rq a) (attr_write c2 name v lq rq b).
+Proof.
+  intros H. unfold attr_write. change (oc_self_closing_style c1) with (oc_self_closing_style c).
+  change (oc_self_closing_style c2) with (oc_self_closing_style c).
+  pose proof (Sim_push_str c1 c2 H1 H2 eq eq_app) as Ps. pose proof (Sim_push_tokens c1 c2 H1 H2 eq eq_app) as Pt.
+  destruct v as [[|v0 vr]|].
+  - destruct (negb (str_eqb (oc_self_closing_style c) s_html)); repeat apply Ps; exact H.
+  - apply Ps, Pt, Ps, Ps, H.
+  - destruct (negb (str_eqb (oc_self_closing_style c) s_html)); repeat apply Ps; exact H.
+Qed.
+
+Lemma cos_push_attribute x a b : SimE a b -> SimE (push_attribute c1 x a) (push_attribute c2 x b).
+Proof.
+  intros H. rewrite !push_attribute_unfold. destruct (aa_name x) as [[|y nm]|]; try exact H.
+  change (attr_out_name c2 x (y :: nm)) with (attr_out_name c1 x (y :: nm)).
+  change (attr_v1 c2 x (y :: nm)) with (attr_v1 c1 x (y :: nm)).
+  cbv zeta. destruct (attr_v1 c1 x (y :: nm)) as [[value1 lq] rq].
+  change (attr_value2 c2 x (attr_out_name c1 x (y :: nm)) value1) with (attr_value2 c1 x (attr_out_name c1 x (y :: nm)) value1).
+  apply cos_attr_write, H.
+Qed.
+
+Lemma cos_comment_node text n a b : SimE a b -> SimE (comment_node c1 text n a) (comment_node c2 text n b).
+Proof.
+  intros H. unfold comment_node. destruct text; [exact H|].
+  change (should_comment c2 n) with (should_comment c1 n). destruct (should_comment c1 n); [|exact H].
+  pose proof (Sim_push_str c1 c2 H1 H2 eq eq_app) as Ps. pose proof (Sim_push_tokens c1 c2 H1 H2 eq eq_app) as Pt.
+  unfold comment_output. apply (Sim_fold eq); [|exact H].
+  intros a' b' t H'. destruct t as [s|bf af nm]; [apply Ps, H'|].
+  destruct (assoc_str nm _); [|exact H']. apply Ps, Pt, Ps, H'.
 Qed.
 
 Theorem content_cosmetic children :
   content (html_format c1 children) = content (html_format c2 children).
 Proof.
-  rewrite !html_format_walk.
-  destruct (Sim_html_walk None None children children children 0 0 (mkFs os_empty 1) (mkFs os_empty 1)) as [H _].
-  - apply Forall_forall. intros n _. apply Sim_html_element.
-  - split; reflexivity.
-  - exact H.
+  apply (Sim_html_format c1 c2 H1 H2 eq eq_app (fun _ => True)); try reflexivity.
+  - intros text n a b _. apply cos_comment_node.
+  - apply cos_push_attribute.
+  - intros a b H. change (self_close c2) with (self_close c1). apply (Sim_push_str c1 c2 H1 H2 eq eq_app), H.
+  - apply Forall_forall. intros n _. apply all_nodes_true.
 Qed.
-End Two.
+End Cosmetic.
 
 (* ---------------------------------------------------------------- statement on option records *)
 (* the two records agree on everything except format, indent, newline, baseIndent, inlineBreak,
@@ -439,3 +529,164 @@ Proof.
     destruct Hs as [? [? [? [? [? [? [? [? [? [? [? [? [? ?]]]]]]]]]]]]]. subst. reflexivity. }
   rewrite E1 at 1. rewrite E2. apply content_cosmetic; assumption.
 Qed.
+
+(* ================================================================ instance 2: comments *)
+Definition with_comment (e : bool) (c : oconfig) : oconfig :=
+  mkOconfig (oc_fmt c) (oc_tag_case c) (oc_attr_case c) (oc_attr_quotes c) (oc_format c) (oc_format_leaf c)
+            (oc_format_skip c) (oc_format_force c) (oc_inline_break c) (oc_compact_boolean c) (oc_boolean_attrs c)
+            (oc_self_closing_style c) (oc_inline c) e (oc_comment_trigger c) (oc_comment_before c)
+            (oc_comment_after c) (oc_jsx c) (oc_markup_attributes c) (oc_value_prefix c).
+
+(* [Adds x y]: x is y with additional text items; nothing of y is changed, dropped or reordered *)
+Inductive Adds : list citem -> list citem -> Prop :=
+| adds_nil : Adds [] []
+| adds_keep i a b : Adds a b -> Adds (i :: a) (i :: b)
+| adds_text s a b : Adds a b -> Adds (KT s :: a) b.
+
+Definition is_text (i : citem) : Prop := match i with KT _ => True | KF _ _ => False end.
+
+Lemma Adds_refl z : Adds z z.
+Proof. induction z; constructor; assumption. Qed.
+Lemma Adds_app x y z : Adds x y -> Adds (x ++ z) (y ++ z).
+Proof. induction 1; cbn [app]; [apply Adds_refl|constructor; assumption|constructor; assumption]. Qed.
+Lemma Adds_more x y K : Adds x y -> Forall is_text K -> Adds (x ++ K) y.
+Proof.
+  intros H HK. induction H; cbn [app].
+  - induction HK as [|i K Hi HK IH]; [constructor|]. destruct i; [constructor; exact IH|destruct Hi].
+  - constructor. exact IHAdds.
+  - constructor. exact IHAdds.
+Qed.
+
+Lemma canon_str_text s : Forall is_text (canon_str s).
+Proof.
+  unfold canon_str. induction (splitlines s) as [|l ls IH]; [constructor|]. cbn [flat_map].
+  apply Forall_app. split; [|exact IH]. unfold canon_text. destruct (ws l); constructor; [exact I|constructor].
+Qed.
+Lemma canon_plain_text F v : plain_tokens v = true -> Forall is_text (canon_tokens F v).
+Proof.
+  induction v as [|t v IH]; intros H; [constructor|]. cbn [plain_tokens forallb] in H. apply andb_true_iff in H.
+  destruct H as [Ht Hv]. destruct t; [|discriminate]. cbn [canon_tokens flat_map]. apply Forall_app.
+  split; [apply canon_str_text|apply IH, Hv].
+Qed.
+
+Section Comments.
+Variable c : oconfig.
+Hypothesis Hf : ws_fmt (oc_fmt c).
+Let c1 := with_comment true c.
+Let c2 := with_comment false c.
+
+(* a comment writes text only and leaves the field counter alone (attribute values without fields) *)
+Lemma comment_adds text n a :
+  attrs_plain n = true ->
+  exists K, content (comment_node c1 text n a) = content a ++ K /\ Forall is_text K /\
+            fs_field (comment_node c1 text n a) = fs_field a.
+Proof.
+  intros Hp. unfold comment_node. destruct text as [|t0 text0]; [exists []; rewrite app_nil_r; repeat split; constructor|].
+  destruct (should_comment c1 n); [|exists []; rewrite app_nil_r; repeat split; constructor].
+  unfold comment_output.
+  set (attrs := rev _).
+  assert (Ha : forall k v, assoc_str k attrs = Some v -> plain_tokens v = true).
+  { assert (Hall : Forall (fun kv => plain_tokens (snd kv) = true) attrs).
+    { unfold attrs. apply Forall_rev. apply Forall_forall. intros [k v] Hin. apply in_flat_map in Hin.
+      destruct Hin as [x [Hin Hkv]]. unfold attrs_plain in Hp. rewrite forallb_forall in Hp. specialize (Hp x Hin).
+      destruct (aa_name x) as [[|y nm]|]; [destruct Hkv| |destruct Hkv].
+      destruct (aa_value x) as [[|v0 vr]|]; [destruct Hkv| |destruct Hkv].
+      destruct Hkv as [E|[]]. injection E as <- <-. exact Hp. }
+    clear -Hall. induction attrs as [|[k' v'] l IH]; intros k v; cbn [assoc_str]; [discriminate|].
+    inversion Hall; subst. destruct (str_eqb k k'); [intros E; injection E as <-; assumption|apply IH; assumption]. }
+  clearbody attrs. generalize (template (t0 :: text0)) as toks. intros toks. revert a.
+  induction toks as [|t toks IH]; intros a; cbn [fold_left].
+  - exists []. rewrite app_nil_r. repeat split. constructor.
+  - match goal with |- context [fold_left ?f toks ?st] => destruct (IH st) as [K [E1 [E2 E3]]] end.
+    destruct t as [s|bf af nm].
+    + exists (canon_str s ++ K). split; [|split].
+      * rewrite E1, (ct_push_str c1 Hf), <- app_assoc. reflexivity.
+      * apply Forall_app. split; [apply canon_str_text|exact E2].
+      * rewrite E3. reflexivity.
+    + destruct (assoc_str nm attrs) as [v|] eqn:Ev.
+      * exists (canon_str bf ++ canon_tokens (fs_field a) v ++ canon_str af ++ K).
+        split; [|split].
+        -- rewrite E1, (ct_push_str c1 Hf), (ct_push_tokens c1 Hf), (ct_push_str c1 Hf), fld_push_str, <- !app_assoc.
+           reflexivity.
+        -- repeat (apply Forall_app; split); try apply canon_str_text; [apply canon_plain_text, (Ha _ _ Ev)|exact E2].
+        -- rewrite E3, fld_push_str, (fld_push_tokens c1), fld_push_str. unfold next_field.
+           rewrite (plain_max_field v (Ha _ _ Ev)). reflexivity.
+      * exists K. repeat split; assumption.
+Qed.
+
+Theorem comments_additive_lemma children :
+  Forall (all_nodes (fun n => attrs_plain n = true)) children ->
+  Adds (content (html_format c1 children)) (content (html_format c2 children)).
+Proof.
+  apply (Sim_html_format c1 c2 Hf Hf Adds Adds_app (fun n => attrs_plain n = true)); try reflexivity.
+  - (* comment_node: the run without comments does nothing *)
+    intros text n a b Hp [Hc Hfld].
+    assert (E2 : comment_node c2 text n b = b).
+    { unfold comment_node. destruct text; [reflexivity|]. reflexivity. }
+    rewrite E2. destruct (comment_adds text n a Hp) as [K [E1 [HK E3]]]. split.
+    + rewrite E1. apply Adds_more; assumption.
+    + rewrite E3. exact Hfld.
+  - intros x a b H. apply (Sim_push_attribute_same c1 c2 Hf Hf Adds Adds_app); try reflexivity; [right; reflexivity|exact H].
+  - intros a b H. change (self_close c2) with (self_close c1). apply (Sim_push_str c1 c2 Hf Hf Adds Adds_app), H.
+  - constructor.
+Qed.
+End Comments.
+
+(* ================================================================ instance 3: self-closing style *)
+Definition with_style (s : str) (c : oconfig) : oconfig :=
+  mkOconfig (oc_fmt c) (oc_tag_case c) (oc_attr_case c) (oc_attr_quotes c) (oc_format c) (oc_format_leaf c)
+            (oc_format_skip c) (oc_format_force c) (oc_inline_break c) (oc_compact_boolean c) (oc_boolean_attrs c)
+            s (oc_inline c) (oc_comment_enabled c) (oc_comment_trigger c) (oc_comment_before c)
+            (oc_comment_after c) (oc_jsx c) (oc_markup_attributes c) (oc_value_prefix c).
+
+(* the end of a self-closed tag as it appears in the content: ">", "/>" (the blank of " />" is a
+   leading blank of its chunk) *)
+Definition close_mark (c : oconfig) : citem := KT (lstrip (self_close c ++ [c_gt])).
+
+Section SelfClose.
+Variables (c : oconfig) (s1 s2 : str).
+Hypothesis Hf : ws_fmt (oc_fmt c).
+Hypothesis Hcompact : oc_compact_boolean c = false.
+Let c1 := with_style s1 c.
+Let c2 := with_style s2 c.
+
+(* item by item equal, except that a closing mark of style 1 faces a closing mark of style 2 *)
+Definition same_but_mark (x y : citem) : Prop := x = y \/ (x = close_mark c1 /\ y = close_mark c2).
+Definition RelS := Forall2 same_but_mark.
+
+Lemma RelS_app x y z : RelS x y -> RelS (x ++ z) (y ++ z).
+Proof.
+  intros H. apply Forall2_app; [exact H|]. induction z; constructor; [left; reflexivity|assumption].
+Qed.
+
+Lemma canon_close_mark c0 : canon_str (self_close c0 ++ [c_gt]) = [close_mark c0].
+Proof.
+  unfold close_mark, self_close.
+  destruct (str_eqb (oc_self_closing_style c0) s_xhtml); [vm_compute; reflexivity|].
+  destruct (str_eqb (oc_self_closing_style c0) s_xml); vm_compute; reflexivity.
+Qed.
+
+Lemma value2_truthy x name v : truthy_l (attr_value2 c1 x name v) = true.
+Proof.
+  unfold attr_value2. change (oc_compact_boolean c1) with (oc_compact_boolean c). rewrite Hcompact. cbn [negb].
+  destruct (is_boolean_attribute c1 x && negb (truthy_l v)); [reflexivity|].
+  destruct (truthy_l v) eqn:E; cbn [negb]; [exact E|reflexivity].
+Qed.
+
+Theorem selfclose_local_lemma children :
+  RelS (content (html_format c1 children)) (content (html_format c2 children)).
+Proof.
+  apply (Sim_html_format c1 c2 Hf Hf RelS RelS_app (fun _ => True)); try reflexivity.
+  - intros text n a b _. apply (Sim_comment_same c1 c2 Hf Hf RelS RelS_app). reflexivity.
+  - intros x a b H. apply (Sim_push_attribute_same c1 c2 Hf Hf RelS RelS_app); try reflexivity; [|exact H].
+    left. apply value2_truthy.
+  - intros a b [Hc Hfld]. split; [|exact Hfld].
+    rewrite (ct_push_str c1 Hf), (ct_push_str c2 Hf), !canon_close_mark.
+    apply Forall2_app; [exact Hc|]. constructor; [right; split; reflexivity|constructor].
+  - constructor.
+  - apply Forall_forall. intros n _. apply all_nodes_true.
+Qed.
+End SelfClose.
+
+Lemma Forall2_len {A B} (R : A -> B -> Prop) l1 l2 : Forall2 R l1 l2 -> length l1 = length l2.
+Proof. induction 1; cbn [length]; congruence. Qed.
